@@ -318,6 +318,102 @@ def oracle(ctx, progs, r, transport, label, extra_issued=(), stream_only=False):
                       key={'programs': prog_str(progs), 'schedule': r['ran'], 'transport': transport})
 
 
+def _direct_scenarios(ctx, C, rng):
+    # ---- a forced write that fails while the packet is being serialised (incomplete packet: nothing sent) leaves nothing
+    # behind: the packets written afterwards on that connection (queued and forced) are exactly their own frames
+    import types as _types
+    import simnet
+    from refserver import RefServer
+    from minecraft.networking.packets import serverbound as sb2_
+    for trial in range(ctx.scale(6, 40)):
+        wire = []
+        conn = C.Connection('h', 1, username='u', allowed_versions={757})
+        conn.socket = _types.SimpleNamespace(send=lambda d: wire.append(bytes(d)) or len(d), shutdown=lambda how: None, close=lambda: None)
+        conn.connected = True
+        if not hasattr(conn, '_outgoing_packet_queue'):
+            conn._outgoing_packet_queue = C.deque()         # (created by _connect(), which this scenario does not run)
+        thr = [None, 4, 64][trial % 3]
+        if thr is not None:
+            conn.options.compression_enabled, conn.options.compression_threshold = True, thr
+        failed = None
+        try:
+            conn.write_packet(sb2_.play.ChatPacket(), force=True)          # no `message`: serialisation raises
+        except Exception as e:
+            failed = type(e).__name__
+        msgs = ['after-%d-%d' % (trial, k) for k in range(rng.randint(1, 3))]
+        for k, m_ in enumerate(msgs):
+            conn.write_packet(sb2_.play.ChatPacket(message=m_), force=(k % 2 == 0))
+        conn.disconnect()
+        ctx.case(('residue-after-failed-write', trial, thr))
+        data = b''.join(wire)
+        try:
+            frames, left = rc.parse_frames(data, compressed=thr is not None)
+            got = [rc.read_string(pl, 0)[0] for _, pl in frames]
+        except Exception as e:
+            frames, left, got = None, repr(e), None
+        if failed is None or left or got is None or sorted(got) != sorted(msgs):
+            ctx.violation('a forced write of an incomplete packet raised %s (nothing sent); the %d packets written afterwards (threshold %r) '
+                          'arrive as %r, expected exactly %r' % (failed, len(msgs), thr, got if got is not None else left, msgs),
+                          {'threshold': thr}, key={'kind': 'residue-after-failed-write', 'thr': thr})
+    # ---- the write lock is ONE lock for the life of the object: a writer that was waiting for it while a (re)connect was in
+    # progress and a writer that comes afterwards still exclude each other (U's two sends stay adjacent)
+    import threading as _th
+    import time as _time
+    for trial in range(ctx.scale(2, 6)):
+        cfg = {'version': 757, 'script': []}
+        wire2 = []
+        with simnet.Net(lambda s_: RefServer(s_, cfg)) as net:
+            conn = C.Connection('h', 1, username='u', allowed_versions={757})
+            lock0 = conn._write_lock
+            lock0.acquire()                       # a connect() in progress holds the write lock throughout
+            u_first, main_done, u_started = _th.Event(), _th.Event(), _th.Event()
+            try:
+                def u_body():
+                    u_started.set()
+                    try:
+                        conn.write_packet(sb2_.play.ChatPacket(message='from-U'), force=True)
+                    except Exception as e:
+                        wire2.append(('U', 'raised %r' % (e,)))
+                tU = _th.Thread(target=u_body, name='U', daemon=True)
+                tU.start()
+                u_started.wait(2)
+                _time.sleep(0.1)                  # U is now waiting for the lock
+                conn._connect()
+                real_sock = conn.socket
+                state = {'n': 0}
+
+                class Proxy:
+                    def send(self_, d):
+                        who = _th.current_thread().name
+                        wire2.append((who, bytes(d)))
+                        if who == 'U':
+                            state['n'] += 1
+                            if state['n'] == 1:
+                                u_first.set()
+                                main_done.wait(0.4)      # bounded: gives another writer the chance to get in between
+                        return len(d)
+
+                    def __getattr__(self_, a):
+                        return getattr(real_sock, a)
+                conn.socket = Proxy()
+            finally:
+                lock0.release()
+            u_first.wait(2)
+            try:
+                conn.write_packet(sb2_.play.ChatPacket(message='from-main'), force=True)
+            except Exception as e:
+                wire2.append(('main', 'raised %r' % (e,)))
+            main_done.set()
+            tU.join(3)
+        ctx.case(('lock-across-connect', trial))
+        who_seq = [w for w, _ in wire2]
+        ok = who_seq in (['U', 'U', 'MainThread', 'MainThread'], ['MainThread', 'MainThread', 'U', 'U'])
+        if not ok and not (len(who_seq) == 4 and who_seq.count('U') == 2 and who_seq[who_seq.index('U') + 1] == 'U'):
+            ctx.violation('thread U waits for the write lock while a connect is in progress, then writes; the main thread writes as soon as '
+                          'U has sent its length prefix: order of the sends on the socket %r (U\'s two sends must be adjacent)' % (who_seq,),
+                          {'sends': who_seq}, key={'kind': 'lock-across-connect'})
+
+
 def run(ctx):
     import minecraft.networking.connection as C
     from minecraft.networking import encryption as E
@@ -443,99 +539,6 @@ def run(ctx):
         if r['errors'] and not failed:
             ctx.violation('%s: a thread raised: %r' % (label, r['errors'][:2]), {'programs': prog_str(progs), 'schedule': r['ran']},
                           key={'programs': prog_str(progs), 'schedule': r['ran'], 'kind': 'thread-error'})
-    # ---- a forced write that fails while the packet is being serialised (incomplete packet: nothing sent) leaves nothing
-    # behind: the packets written afterwards on that connection (queued and forced) are exactly their own frames
-    import types as _types
-    import simnet
-    from refserver import RefServer
-    from minecraft.networking.packets import serverbound as sb2_
-    for trial in range(ctx.scale(6, 40)):
-        wire = []
-        conn = C.Connection('h', 1, username='u', allowed_versions={757})
-        conn.socket = _types.SimpleNamespace(send=lambda d: wire.append(bytes(d)) or len(d), shutdown=lambda how: None, close=lambda: None)
-        conn.connected = True
-        if not hasattr(conn, '_outgoing_packet_queue'):
-            conn._outgoing_packet_queue = C.deque()         # (created by _connect(), which this scenario does not run)
-        thr = [None, 4, 64][trial % 3]
-        if thr is not None:
-            conn.options.compression_enabled, conn.options.compression_threshold = True, thr
-        failed = None
-        try:
-            conn.write_packet(sb2_.play.ChatPacket(), force=True)          # no `message`: serialisation raises
-        except Exception as e:
-            failed = type(e).__name__
-        msgs = ['after-%d-%d' % (trial, k) for k in range(rng.randint(1, 3))]
-        for k, m_ in enumerate(msgs):
-            conn.write_packet(sb2_.play.ChatPacket(message=m_), force=(k % 2 == 0))
-        conn.disconnect()
-        ctx.case(('residue-after-failed-write', trial, thr))
-        data = b''.join(wire)
-        try:
-            frames, left = rc.parse_frames(data, compressed=thr is not None)
-            got = [rc.read_string(pl, 0)[0] for _, pl in frames]
-        except Exception as e:
-            frames, left, got = None, repr(e), None
-        if failed is None or left or got is None or sorted(got) != sorted(msgs):
-            ctx.violation('a forced write of an incomplete packet raised %s (nothing sent); the %d packets written afterwards (threshold %r) '
-                          'arrive as %r, expected exactly %r' % (failed, len(msgs), thr, got if got is not None else left, msgs),
-                          {'threshold': thr}, key={'kind': 'residue-after-failed-write', 'thr': thr})
-    # ---- the write lock is ONE lock for the life of the object: a writer that was waiting for it while a (re)connect was in
-    # progress and a writer that comes afterwards still exclude each other (U's two sends stay adjacent)
-    import threading as _th
-    import time as _time
-    for trial in range(ctx.scale(2, 6)):
-        cfg = {'version': 757, 'script': []}
-        wire2 = []
-        with simnet.Net(lambda s_: RefServer(s_, cfg)) as net:
-            conn = C.Connection('h', 1, username='u', allowed_versions={757})
-            lock0 = conn._write_lock
-            lock0.acquire()                       # a connect() in progress holds the write lock throughout
-            u_first, main_done, u_started = _th.Event(), _th.Event(), _th.Event()
-            try:
-                def u_body():
-                    u_started.set()
-                    try:
-                        conn.write_packet(sb2_.play.ChatPacket(message='from-U'), force=True)
-                    except Exception as e:
-                        wire2.append(('U', 'raised %r' % (e,)))
-                tU = _th.Thread(target=u_body, name='U', daemon=True)
-                tU.start()
-                u_started.wait(2)
-                _time.sleep(0.1)                  # U is now waiting for the lock
-                conn._connect()
-                real_sock = conn.socket
-                state = {'n': 0}
-
-                class Proxy:
-                    def send(self_, d):
-                        who = _th.current_thread().name
-                        wire2.append((who, bytes(d)))
-                        if who == 'U':
-                            state['n'] += 1
-                            if state['n'] == 1:
-                                u_first.set()
-                                main_done.wait(0.4)      # bounded: gives another writer the chance to get in between
-                        return len(d)
-
-                    def __getattr__(self_, a):
-                        return getattr(real_sock, a)
-                conn.socket = Proxy()
-            finally:
-                lock0.release()
-            u_first.wait(2)
-            try:
-                conn.write_packet(sb2_.play.ChatPacket(message='from-main'), force=True)
-            except Exception as e:
-                wire2.append(('main', 'raised %r' % (e,)))
-            main_done.set()
-            tU.join(3)
-        ctx.case(('lock-across-connect', trial))
-        who_seq = [w for w, _ in wire2]
-        ok = who_seq in (['U', 'U', 'MainThread', 'MainThread'], ['MainThread', 'MainThread', 'U', 'U'])
-        if not ok and not (len(who_seq) == 4 and who_seq.count('U') == 2 and who_seq[who_seq.index('U') + 1] == 'U'):
-            ctx.violation('thread U waits for the write lock while a connect is in progress, then writes; the main thread writes as soon as '
-                          'U has sent its length prefix: order of the sends on the socket %r (U\'s two sends must be adjacent)' % (who_seq,),
-                          {'sends': who_seq}, key={'kind': 'lock-across-connect'})
     # ---- "an immediate disconnect sends nothing further", also not in the NEXT session of the same object: a packet queued
     # right before disconnect(immediate=True) never reaches any server -- neither the old one nor, after connect(), the new one
     import simnet
@@ -798,6 +801,15 @@ def run(ctx):
             ctx.disagree('send arguments of one packet vs Lean frameSends', line[:200], mo[:200], g[:200])
     ctx.extra['chunk_byte_pairs_compared'] = len(blines)
     progress_tie(ctx, C, E)
+    # ---- scenarios on a bare Connection (no scheduler); run last so that a tree on which they cannot run does not keep the
+    # scheduler scenarios from being judged
+    try:
+        _direct_scenarios(ctx, C, rng)
+    except Exception as e:
+        import traceback
+        ctx.disagree('direct scenarios (residue after a failed write, lock across connect) could not run', repr(e), None,
+                     traceback.format_exc()[-1200:])
+
 
 
 def progress_tie(ctx, C, E):
